@@ -20,7 +20,11 @@ _GEOMETRY_LEMMAS = [  # = contracts.geometry_lemmas_c.SMT_LEMMAS (every kind-"sm
 # deductive part: spec-level LEMMAS only (no function of /repo is put under contract by C05 itself; the code-level contracts whose
 # specs are built from these primitives belong to C03 / C04 / C11 / C18).  `module` only tells the engine which file to parse.
 DEDUCTIVE = [{"module": "rnapolis.tertiary", "sidecar": "contracts.geometry_lemmas_c",
-              "targets": ["lemma:" + l for l in _GEOMETRY_LEMMAS]}]
+              "targets": ["lemma:" + l for l in _GEOMETRY_LEMMAS]},
+             # "renamed order-preservingly (up to that renaming)": the residue order the output is sorted and oriented by IS the
+             # lexicographic order of (model, chain, number, insertion code) on plain string / integer comparison - the order the
+             # rename_* lemmas are stated for (a case-folding or length-first chain comparison is a different order)
+             {"module": "rnapolis.tertiary", "sidecar": "contracts.annotator_c", "targets": ["Residue3D.__lt__"]}]
 TRUSTED = ["numpy", "scipy KD-tree", "mmcif reader", "CPython 3.12",
            "z3 5.1.0 / cvc5 1.0.3 (every lemma obligation is discharged by z3; ring identities by its polynomial normaliser)",
            "numpy.linalg.norm(v) is the non-negative real n with n*n == v.v (contracts/externals.py np_norm; used by inv_dist / inv_torsion only)",
@@ -90,6 +94,10 @@ def rename(structure, rng):
     from rnapolis.common import ResidueAuth, ResidueLabel
     chains = sorted({x.chain for r in structure.residues for x in (r.label, r.auth) if x is not None})
     pool = sorted(rng.sample([c + d for c in "ABCDEFGHKMPQRSTXYZ" for d in ["", "1", "x"]], len(chains)))
+    if rng.random() < 0.5 and len(chains) > 1:
+        # chain ids that differ only in letter case (mmCIF files with more than 26 chains use them): still order-preserving
+        letters = rng.sample("ABCDEFGHKMPQRSTXYZ", (len(chains) + 1) // 2)
+        pool = sorted(rng.sample([c for L in letters for c in (L, L.lower())], len(chains)))
     cmap = dict(zip(chains, pool))
     off, mul = rng.randint(-50, 500), rng.choice([1, 1, 2, 3])
     inv = {}
